@@ -528,15 +528,25 @@ func c14Hashers(c *Check, P string) {
 		okH := ok && CalleeName(hv) == want && hv.Parent() == inner
 		c.Report(okH, P+".O4", "HASH-FRESH-STATE", inner, cp.Pos(), name, "a fresh "+want+"() state is used per message")
 		okSum := false
-		for _, vals := range ReturnValues(inner, 0) {
+		okOnly := true
+		for ret, vals := range ReturnValues(inner, 0) {
 			for _, v := range vals {
+				isDigest := false
 				if cv, isCv := v.(*ssa.Convert); isCv {
 					if s, isS := cv.X.(*ssa.Call); isS && s.Call.IsInvoke() && s.Call.Method.Name() == "Sum" && sameValue(s.Call.Value, cp.Common().Args[0]) && IsNilConst(s.Call.Args[0]) {
 						okSum = true
+						isDigest = true
+					}
+				}
+				if !isDigest {
+					// any other key value is allowed only together with an error
+					if cst, isC := v.(*ssa.Const); !(isC && cst.Value != nil && cst.Value.ExactString() == `""` && len(ret.Results) > 1 && !RetNil(ret, 1)) {
+						okOnly = false
 					}
 				}
 			}
 		}
+		c.Report(okOnly, P+".O4", "HASH-KEY-ONLY-DIGEST", inner, inner.Pos(), name, "on success the key is always the digest, never another function of the payload (two ways of forming keys can collide with each other)")
 		c.Report(okSum, P+".O4", "HASH-KEY-IS-DIGEST", inner, inner.Pos(), name, "the key is exactly the digest (Sum(nil)) of what was read")
 	}
 }
